@@ -109,10 +109,10 @@ func (i *itemsValidator) Validate(index int, data interface{}) *Result {
 		}
 
 		validator.SetPath(path)
-		err := validator.Validate(data)
 		if i.Options.recycleValidators {
-			i.validators[idx] = nil // prevents further (unsafe) usage
+			i.validators[idx] = nil // prevents further (unsafe) usage, including when unwinding from a panic
 		}
+		err := validator.Validate(data)
 		if err != nil {
 			result.Inc()
 			if err.HasErrors() {
@@ -390,10 +390,10 @@ func (p *HeaderValidator) Validate(data interface{}) *Result {
 			continue
 		}
 
-		err := validator.Validate(data)
 		if p.Options.recycleValidators {
-			p.validators[idx] = nil // prevents further (unsafe) usage
+			p.validators[idx] = nil // prevents further (unsafe) usage, including when unwinding from a panic
 		}
+		err := validator.Validate(data)
 		if err != nil {
 			if err.HasErrors() {
 				result.Merge(err)
@@ -582,10 +582,10 @@ func (p *ParamValidator) Validate(data interface{}) *Result {
 			continue
 		}
 
-		err := validator.Validate(data)
 		if p.Options.recycleValidators {
-			p.validators[idx] = nil // prevents further (unsafe) usage
+			p.validators[idx] = nil // prevents further (unsafe) usage, including when unwinding from a panic
 		}
+		err := validator.Validate(data)
 		if err != nil {
 			if err.HasErrors() {
 				result.Merge(err)
